@@ -139,18 +139,13 @@ pub fn claim(deps: DepsMut, info: MessageInfo) -> Result<Response, ContractError
                 }
             }
 
-            if epoch.claimed.is_empty() {
-                epoch.claimed = vec![Asset {
+            epoch.claimed = asset::aggregate_assets(
+                epoch.claimed,
+                vec![Asset {
                     info: fee.info.clone(),
                     amount: reward,
-                }];
-            } else {
-                for claimed_fee in epoch.claimed.iter_mut() {
-                    if claimed_fee.info == fee.info {
-                        claimed_fee.amount = claimed_fee.amount.checked_add(reward)?;
-                    }
-                }
-            }
+                }],
+            )?;
 
             EPOCHS.save(deps.storage, &epoch.id.to_be_bytes(), &epoch)?;
         }
